@@ -19,7 +19,19 @@ pub trait RenameExt {
 impl RenameExt for String {
     fn to_camel_case(&self) -> String {
         let pascal = self.to_pascal_case();
-        pascal[..1].to_ascii_lowercase() + &pascal[1..]
+        // Lowercase the first character only. Slicing `pascal[..1]` would panic when the
+        // PascalCase form is empty (e.g. "__") or starts with a non-ASCII character.
+        let mut camel = Self::new();
+        let mut first = true;
+        for ch in pascal.chars() {
+            if first {
+                camel.push(ch.to_ascii_lowercase());
+                first = false;
+            } else {
+                camel.push(ch);
+            }
+        }
+        camel
     }
 
     fn to_pascal_case(&self) -> String {
